@@ -130,9 +130,13 @@ impl SecondaryStorage {
                         (table_id.parse::<u32>(), rowset_id.parse::<u32>())
                     && !rowsets_to_open.contains_key(&(table_id, rowset_id))
                 {
+                    #[cfg(feature = "verif")]
+                    crate::verif::persist("boot.unlink.pre", entry.path());
                     fs::remove_dir_all(entry.path())
                         .await
                         .expect("failed to vacuum unused rowsets");
+                    #[cfg(feature = "verif")]
+                    crate::verif::persist("boot.unlink.post", entry.path());
                 }
             }
         }
